@@ -169,17 +169,27 @@ def handleHist (f : List String) : String × String × String :=
         if prefixOf m n == prefixOf a n then none else some s!"step{i}:{kindOf sp}={m}")
       let diff := match diffs with | [] => "-" | d :: _ => d
       -- judge: long-lived answer = fresh answer, for every step
-      let js := (stepsL.zip (longL.zip freshL)).filterMap fun (sp, a, b) =>
+      -- for every step: has the client seen a zone that the latest descriptor no longer has?
+      let zoneLost : List Bool :=
+        ((stepsL.foldl (fun (acc : List String × List String × List Bool) sp =>
+          match sp.splitOn "!" with
+          | ["U", _, d] =>
+            let zs := ((parseDesc d).getD []).map (·.zone)
+            let seen := OracleC12.dedup (acc.1 ++ zs)
+            (seen, zs, (seen.any fun z => !zs.contains z) :: acc.2.2)
+          | _ => (acc.1, acc.2.1, (acc.1.any fun z => !acc.2.1.contains z) :: acc.2.2)) ([], [], [])).2.2).reverse
+      let js := ((stepsL.zip (longL.zip freshL)).zip zoneLost).filterMap fun ((sp, a, b), zl) =>
         if a == b then none
         else if eraseVersions a == eraseVersions b then some "stale_versions"
         else if eraseIds a == eraseIds b then some "stale_instance_id"
+        else if zl && (kindOf sp == "S" || kindOf sp == "L") then some "stale_after_zone_emptied"
         else some ("stale_" ++ kindOf sp)
       let kinds := OracleC12.dedup (stepsL.map kindOf)
       let nU := (stepsL.filter (·.startsWith "U")).length
       let cmpKinds := OracleC12.dedup ((stepsL.zip longL).filterMap fun (sp, a) => if sp.startsWith "U" then some a else none)
       let hits := fin.hits
       let noid := stepsL.any fun sp => (sp.splitOn "!").any (·.endsWith "~noid")
-      let tags := s!"k=hist noid={if noid then 1 else 0} za={za} steps={OracleC12.bucket stepsL.length} upd={OracleC12.bucket nU} cmp={"".intercalate cmpKinds} hits={OracleC12.bucket hits} kinds={kinds.length} triv={if nU ≤ 1 then 1 else 0}"
+      let tags := s!"k=hist zonelost={if zoneLost.any id then 1 else 0} noid={if noid then 1 else 0} za={za} steps={OracleC12.bucket stepsL.length} upd={OracleC12.bucket nU} cmp={"".intercalate cmpKinds} hits={OracleC12.bucket hits} kinds={kinds.length} triv={if nU ≤ 1 then 1 else 0}"
       (diff, OracleC12.reasons js, tags)
     | none => ("parse-error", "-", "-")
   | _ => ("bad-arity", "-", "-")
@@ -216,6 +226,11 @@ def pstep (st : PStreams) (s : PSt') (stepStr : String) (implAns : String) : PSt
     match size.toInt?, period.toInt?, now.toInt? with
     | some size, some period, some now => let (ids, c') := pqueryShardLB s.c st ident size period now; put c' (OracleC12.showInts ids)
     | _, _, _ => put s.c "parse-error"
+  | ["Q", "N", a, n, b, m, period, now] =>
+    match n.toInt?, m.toInt?, period.toInt?, now.toInt? with
+    | some n, some m, some period, some now =>
+      let (ids, c') := pnested s.c st a n b m period now; put c' (OracleC12.showInts ids)
+    | _, _, _, _ => put s.c "parse-error"
   | _ => put s.c implAns
 
 def handlePHist (f : List String) : String × String × String :=
